@@ -1,10 +1,11 @@
 // boundary: C08 driver - Go values crossing the host/script boundary.
 //
 //	boundary run -in cases.ndjson -out obs.ndjson [-j N]
-//	    every case {id, t:[chain], c:class, r:route} is materialised with reflect (or taken from
-//	    the pre-declared pool for named types and method routes), pushed through the real risor
-//	    boundary under recover in a crash-isolated worker, and reported as
-//	    {k: ok|rejected|panic|crash|hang|nopool|badcase, script: tree, back: tree, typeok, deq, msg}
+//	    every case {id, t:[chain], c:class, r:route, w:literal tree} is materialised with reflect (or
+//	    taken from the pre-declared pool for named types and method routes), pushed through the real
+//	    risor boundary under recover in a crash-isolated worker, and reported as
+//	    {k: ok|rejected|panic|crash|hang|nopool|badcase, msg, phase, script: tree, back: tree,
+//	     back_k: ok|rejected|na, typeok, calls}
 //	boundary gen -seed S -n N -depth D -out cases.ndjson
 //	    random deeper chains / classes / routes (V leg), same case format
 //	boundary pool
@@ -12,6 +13,19 @@
 //
 // A type is a CHAIN of constructors ending in a leaf: ["slice","ptr","int8"] = []*int8.
 // Constructors: ptr slice arr1 arr2 map s1 s2 iface (+ imap = map[int]T, unsupported on purpose).
+// Routes:
+//
+//	global             risor.Eval("x", WithGlobals{x: v})            script tree of x, converter.To(x)
+//	field_read         h.F on *struct{F T}                           script tree, converter.To
+//	field_write        dst.F = src.F; dst.F                          script tree read back, Go tree of dst.F
+//	write_lit          dst.F = <literal w>; dst.F                    script tree read back, Go tree of dst.F
+//	method_arg         b.Put3(b.V, 7, b.W) on *Box[T]                Go trees of the three received arguments
+//	method_result      b.Get() (pointer receiver, pointer global)    script tree, converter.To
+//	method_result_val  b.GetV() (value receiver, struct-value global)
+//	rec_methods(_val)  value/pointer receiver methods of the named struct Rec over named parameter types
+//
+// "Converts back" always goes the way Go receives values (object.NewTypeConverter(t).To, a field
+// write, a typed method parameter), never through Object.Interface().
 // Trees are uniform nodes {t: tag, s: text, k: [keys], c: [kids]} (same shape in Boundary.tla).
 package main
 
@@ -54,8 +68,8 @@ type Rec struct {
 }
 
 func (r Rec) Scale(d time.Duration, m MyInt) time.Duration { return d * time.Duration(m) }
-func (r Rec) Tag(s MyStr) MyStr                             { return MyStr(r.A) + s }
-func (r *Rec) SetB(n int64)                                 { r.B = n }
+func (r Rec) Tag(s MyStr) MyStr                            { return MyStr(r.A) + s }
+func (r *Rec) SetB(n int64)                                { r.B = n }
 func (r *Rec) Both(f MyFloat, b MyBool) MyFloat {
 	if b {
 		return f * 2
@@ -106,9 +120,9 @@ type Box[T any] struct {
 	calls  int
 }
 
-func (b *Box[T]) Put3(a T, n int, c T) { b.ga, b.gn, b.gc = a, n, c; b.calls++ }
-func (b *Box[T]) Get() T               { return b.V }
-func (b Box[T]) GetV() T               { return b.V }
+func (b *Box[T]) Put3(a T, n int, c T)  { b.ga, b.gn, b.gc = a, n, c; b.calls++ }
+func (b *Box[T]) Get() T                { return b.V }
+func (b Box[T]) GetV() T                { return b.V }
 func (b *Box[T]) vfield() reflect.Value { return reflect.ValueOf(b).Elem().FieldByName("V") }
 func (b *Box[T]) wfield() reflect.Value { return reflect.ValueOf(b).Elem().FieldByName("W") }
 func (b *Box[T]) got() (reflect.Value, reflect.Value, int, int) {
@@ -761,6 +775,25 @@ func handle(req N) (resp N) {
 	}
 
 	switch route {
+	case "rec_methods", "rec_methods_val":
+		rec := &Rec{A: "tag", B: 7}
+		var g any = rec
+		if route == "rec_methods_val" {
+			g = *rec
+		}
+		phase = "eval"
+		res, err := evalWith("a := r.Scale(d, 3)\nb := r.Tag(\"x\")\nc := r.Both(1.5, true)\nr.SetB(41)\n[a, b, c, r.B]",
+			map[string]any{"r": g, "d": time.Duration(4242424242)})
+		if err != nil {
+			return fail(err)
+		}
+		phase = "project"
+		resp["k"] = "ok"
+		resp["script"] = scriptTree(res, 12)
+		resp["back_k"] = "ok"
+		resp["back"] = goTree(reflect.ValueOf(rec))
+		return resp
+
 	case "write_lit":
 		rt, err := rtype(chain)
 		if err != nil {
